@@ -57,8 +57,13 @@ Definition solve (max_iters : nat) (m0 : M) (o0 : O) : st := run max_iters 0 (in
 Definition epochs (s : st) : nat := length (trace s).
 (* what the property calls the trace: the starting value, then one value per completed epoch *)
 Definition full_trace (m0 : M) (s : st) : list E := fest m0 :: trace s.
-(* what the code reports: fest_trace[0 : n_epoch + 1] with n_epoch the LAST LOOP INDEX (0 if the loop never ran) *)
-Definition reported_trace (m0 : M) (s : st) : list E := firstn (S (pred (epochs s))) (full_trace m0 s).
+(* what the code reports: info["f_est_trace"] = fest_trace[0 : n_epoch + 2], a slice of the array np.zeros(max_iters + 1)
+   whose first 1 + epochs entries have been written; n_epoch is the LAST LOOP INDEX (0 if the loop never ran).
+   `pad` stands for the unwritten zeros of the array. *)
+Definition trace_array (pad : E) (max_iters : nat) (m0 : M) (s : st) : list E :=
+  full_trace m0 s ++ repeat pad (max_iters - epochs s).
+Definition reported_trace (pad : E) (max_iters : nat) (m0 : M) (s : st) : list E :=
+  firstn (pred (epochs s) + 2) (trace_array pad max_iters m0 s).
 Definition reported_n_epoch (s : st) : nat := pred (epochs s).
 
 (* e is a smallest element of l *)
@@ -149,21 +154,26 @@ Proof.
     unfold epochs. rewrite <- Hm. now rewrite map_length.
 Qed.
 
-(* the slice in the code drops the value of the last completed epoch whenever at least one epoch ran *)
-Theorem reported_trace_drops_last max_iters m0 o0 :
-  let s := solve max_iters m0 o0 in
-  1 <= epochs s -> reported_trace m0 s = removelast (full_trace m0 s).
+(* the loop body runs at least once unless max_iters = 0 *)
+Lemma epochs_zero_iters max_iters m0 o0 : epochs (solve max_iters m0 o0) = 0 -> max_iters = 0.
 Proof.
-  intros s H. unfold reported_trace, full_trace, epochs in *.
-  destruct (trace s) as [|e t] eqn:Et; [cbn in H; lia|].
-  cbn [length pred]. rewrite removelast_firstn_len. cbn [length]. reflexivity.
+  destruct max_iters as [|k]; [reflexivity|]. unfold solve. cbn [run init stop]. intros H.
+  pose proof (epochs_run_le k 1 (step_epoch 0 (init m0 o0))) as Hle. rewrite epochs_step in Hle.
+  cbn [run init stop] in H. change (mkSt m0 m0 (fest m0) 0 o0 [] [] false) with (init m0 o0) in H. lia.
 Qed.
 
-Theorem reported_trace_no_epoch max_iters m0 o0 :
-  let s := solve max_iters m0 o0 in epochs s = 0 -> reported_trace m0 s = full_trace m0 s.
+(* the reported slice [0 : n_epoch + 2] is the WHOLE trace: the starting value and one value per completed epoch,
+   nothing dropped and none of the array's padding included — for every max_iters (0 included) and every stop reason *)
+Theorem reported_trace_full pad max_iters m0 o0 :
+  let s := solve max_iters m0 o0 in reported_trace pad max_iters m0 s = full_trace m0 s.
 Proof.
-  intros s H. unfold reported_trace, full_trace, epochs in *.
-  destruct (trace s); [reflexivity|cbn in H; lia].
+  intros s. unfold reported_trace, trace_array.
+  destruct (epochs s) as [|e] eqn:Ee.
+  - apply epochs_zero_iters in Ee. subst max_iters. cbn [Nat.sub repeat]. rewrite app_nil_r.
+    apply firstn_all2. unfold full_trace. cbn [length]. unfold epochs in *.
+    unfold s, solve. cbn. lia.
+  - cbn [pred]. replace (e + 2) with (length (full_trace m0 s) + 0) by (unfold full_trace; cbn [length]; unfold epochs in Ee; lia).
+    rewrite firstn_app_2. cbn [firstn]. now rewrite app_nil_r.
 Qed.
 
 (* ---- any property of models that every epoch establishes/preserves holds for the returned model ---- *)
@@ -200,7 +210,8 @@ Qed.
 End Solver.
 
 (* ---------------------------------------------------------------------------------------------- *)
-(* Reuse of a solver OBJECT.  The object keeps (_nfails, private state) between calls of solve.      *)
+(* Reuse of a solver OBJECT.  The object keeps (_nfails, private state) between calls of solve;       *)
+(* solve starts with `self._nfails = 0; self.reset_state()`.                                          *)
 (* ---------------------------------------------------------------------------------------------- *)
 Section Reuse.
 Variables M O E : Type.
@@ -208,12 +219,13 @@ Variable leb : E -> E -> bool.
 Variable fest : M -> E.
 Variable epoch : nat -> nat -> O -> M -> M * O.
 Variable on_fail : O -> O.
+Variable reset : O -> O.                              (* reset_state() *)
 Variable max_fails : nat.
 Variable tol : option E.
 
 (* the object before the call: its _nfails field and its private state *)
 Definition solve_obj (obj : nat * O) (max_iters : nat) (m0 : M) : st M O E :=
-  solve M O E leb fest epoch on_fail max_fails tol max_iters m0 (snd obj).
+  solve M O E leb fest epoch on_fail max_fails tol max_iters m0 (reset (snd obj)).
 Definition obj_after (s : st M O E) : nat * O := (nfails M O E s, opt M O E s).
 
 (* _nfails is reset at entry: the outcome does not depend on it *)
@@ -221,26 +233,37 @@ Theorem reuse_nfails_reset : forall nf1 nf2 o max_iters m0,
   solve_obj (nf1, o) max_iters m0 = solve_obj (nf2, o) max_iters m0.
 Proof. reflexivity. Qed.
 
-(* an optimizer without private state (SGD): the outcome is the same for EVERY previous history of the object *)
-Theorem reuse_stateless : (forall o1 o2 : O, o1 = o2) ->
+(* reset_state() forgets the private state: the outcome is the same for EVERY previous history of the object *)
+Theorem reuse_reset : (forall o1 o2 : O, reset o1 = reset o2) ->
   forall obj1 obj2 max_iters m0, solve_obj obj1 max_iters m0 = solve_obj obj2 max_iters m0.
-Proof. intros Huniq [n1 o1] [n2 o2] k m0. unfold solve_obj. cbn. now rewrite (Huniq o1 o2). Qed.
+Proof. intros Hr [n1 o1] [n2 o2] k m0. unfold solve_obj. cbn [snd]. now rewrite (Hr o1 o2). Qed.
+
+(* a whole sequence of solves on ONE object: every solve equals the same solve on an object in state `fresh` *)
+Fixpoint solve_seq (obj : nat * O) (reqs : list (nat * M)) : list (st M O E) :=
+  match reqs with
+  | [] => []
+  | (k, m0) :: reqs' => let s := solve_obj obj k m0 in s :: solve_seq (obj_after s) reqs'
+  end.
+
+Theorem reuse_sequence : (forall o1 o2 : O, reset o1 = reset o2) ->
+  forall fresh reqs obj, solve_seq obj reqs = map (fun q => solve_obj fresh (fst q) (snd q)) reqs.
+Proof.
+  intros Hr fresh reqs. induction reqs as [|[k m0] reqs IH]; intros obj; cbn [solve_seq map fst snd]; [reflexivity|].
+  rewrite IH. f_equal. now apply reuse_reset.
+Qed.
 End Reuse.
 
-(* Private state that is NOT reset at entry (Adam: _m, _v, _total_iterations; Adagrad: _gnormsum) makes the
-   outcome depend on the object's past: a two-solve witness.  One parameter, one epoch of one Adagrad-like step
-   x <- x - g / (s + g) with the accumulated s kept in the object (all in nat for executability:
-   model value = 100 - ...). *)
-Section ReuseRefuted.
+(* non-vacuity: an Adagrad-like epoch  x <- x - 12 / (acc + 3)  with the accumulated sum kept in the object (all in nat:
+   model value = 100 - ...).  Without the reset the second solve on the same object would start from acc = 3 and return
+   98 instead of 96 (that was finding A-36); with reset_state() = "acc := 0" both give 96. *)
+Section ReuseExample.
 Definition w_epoch (n nf : nat) (acc : nat) (m : nat) : nat * nat := (m - 12 / (acc + 3), acc + 3).
-Definition w_solve (obj : nat * nat) : st nat nat nat :=
-  solve_obj nat nat nat Nat.leb (fun m => m) w_epoch (fun o => o) 1 None obj 1 100.
+Definition w_solve (reset : nat -> nat) (obj : nat * nat) : st nat nat nat :=
+  solve_obj nat nat nat Nat.leb (fun m => m) w_epoch (fun o => o) reset 1 None obj 1 100.
 
-Definition reuse_stmt : Prop := forall obj1 obj2, cur _ _ _ (w_solve obj1) = cur _ _ _ (w_solve obj2).
-
-(* first solve on a fresh object (state 0), second solve on the same object vs on a fresh one *)
-Theorem reuse_stateful_refuted : ~ reuse_stmt.
-Proof.
-  intros H. specialize (H (0, 0) (obj_after _ _ _ (w_solve (0, 0)))). vm_compute in H. discriminate.
-Qed.
-End ReuseRefuted.
+Example reuse_example_reset :
+  let s1 := w_solve (fun _ => 0) (0, 0) in
+  cur _ _ _ s1 = 96 /\ obj_after _ _ _ s1 = (0, 3) /\ cur _ _ _ (w_solve (fun _ => 0) (obj_after _ _ _ s1)) = 96 /\
+  cur _ _ _ (w_solve (fun o => o) (obj_after _ _ _ s1)) = 98.
+Proof. repeat split; reflexivity. Qed.
+End ReuseExample.
